@@ -135,17 +135,28 @@ def parseTok (cfgs : List CfgSpec) (s : String) : Option TokSpec :=
 structure Scenario where
   cfgs : List CfgSpec
   toks : List TokSpec
+  delay : Bool      -- a shutdown_delay is configured
+
+/-- `<grace>` or `<grace>d<delay>`: (grace, delay configured) -/
+def parseGrace (f : String) : Option (Nat × Bool) :=
+  match f.splitOn "d" with
+  | [g] => (canonNat g).map fun x => (x, false)
+  | [g, d] =>
+    match canonNat g, canonNat d with
+    | some x, some y => if 1 ≤ y && y ≤ 2000 then some (x, true) else none
+    | _, _ => none
+  | _ => none
 
 def parseScenario (grace napps cfgs toks : String) : Option Scenario :=
-  match canonNat grace, canonNat napps, (cfgs.splitOn ";").mapM parseCfg with
-  | some g, some na, some cs =>
+  match parseGrace grace, canonNat napps, (cfgs.splitOn ";").mapM parseCfg with
+  | some (g, dl), some na, some cs =>
     if g > 60000 || na > 2 || cs.isEmpty || cs.length > 400 then none else
     match cs.head? with
     | some c0 =>
       if c0.same then none else
-      if toks == "-" then some ⟨cs, []⟩ else
+      if toks == "-" then some ⟨cs, [], dl⟩ else
       match (toks.splitOn ";").mapM (parseTok cs) with
-      | some ts => if ts.length > 8 then none else some ⟨cs, ts⟩
+      | some ts => if ts.length > 8 then none else some ⟨cs, ts, dl⟩
       | none => none
     | none => none
   | _, _, _ => none
@@ -201,15 +212,26 @@ def curCfg (s : State) : Cfg :=
   | some c => c
   | none => ⟨0, []⟩
 
-def block (res : String) (s : State) (binds closes : List (Nat × String)) : String :=
+def block (res : String) (s : State) (binds closes : List (Nat × String)) (sd : String := "-") : String :=
   res ++ ":" ++ snapStr s ++ ":" ++ ansStr s ++ ":" ++ ",".intercalate (sortByIdx binds) ++ ":" ++ ",".intercalate (sortByIdx closes)
+    ++ ":" ++ sd
+
+/-- what the HTTP app's Stop gets from `caddy.ListenerUsage(addr.Network, addr.JoinHostPort(0))` for a
+    listener address of the config being stopped: the `listenerPool` count under the consumer's key —
+    which for u1, written with permission bits, is a key nothing is booked under (Key.lean) -/
+def usageAtStop (s : State) (a : Addr) : Nat := if a.unix && a.id == 1 then 0 else (s.socks a).pool
+
+/-- `(*App).Stop`: shutdown_delay is enforced (and `{http.shutting_down}` turns true) iff a delay is
+    configured and some listener address of the app has a usage count below 2 -/
+def stopDelays (delay : Bool) (s : State) (c : Cfg) : String :=
+  if delay && c.addrs.any (fun a => usageAtStop s a < 2) then String.ofList [genCh c.gen] else "-"
 
 /-- the replaced admin servers shut down -/
 def settleAdmin (s : State) : Option State := run s (s.admRetired.map fun p => .adminClose p.1 p.2)
 
 /-- one load of the sequence on the canonical schedule; `none` = the model got stuck (cannot happen
     for parsed scenarios; printed as `model-stuck`) ; the Bool says "stop here" (stale) -/
-def loadBlock (s : State) (k : Nat) (c : CfgSpec) : Option (State × String × Bool) :=
+def loadBlock (dl : Bool) (s : State) (k : Nat) (c : CfgSpec) : Option (State × String × Bool) :=
   if c.same then some (s, block "same" s [] [], false) else
   match run s [.begin ⟨k, c.addrs⟩, .adminReplace k c.admin] with
   | none => none
@@ -225,7 +247,7 @@ def loadBlock (s : State) (k : Nat) (c : CfgSpec) : Option (State × String × B
           | none => none
           | some (s4, closes) =>
             match (step? s4 .ret).bind settleAdmin with
-            | some s5 => some (s5, block "err" s5 binds closes, false)
+            | some s5 => some (s5, block "err" s5 binds closes (stopDelays dl s3 ⟨k, c.addrs⟩), false)
             | none => none
       else
         let old := curCfg s2
@@ -236,10 +258,10 @@ def loadBlock (s : State) (k : Nat) (c : CfgSpec) : Option (State × String × B
           | none => none
           | some (s4, closes) =>
             match (step? s4 .ret).bind settleAdmin with
-            | some s5 => some (s5, block "ok" s5 binds closes, false)
+            | some s5 => some (s5, block "ok" s5 binds closes (stopDelays dl s3 old), false)
             | none => none
 
-def stopBlock (s : State) : Option String :=
+def stopBlock (dl : Bool) (s : State) : Option String :=
   let old := curCfg s
   match step? s .stopAll with
   | none => none
@@ -248,21 +270,21 @@ def stopBlock (s : State) : Option String :=
     | none => none
     | some (s2, closes) =>
       match step? s2 .ret with
-      | some s3 => some (block "ok" s3 [] closes)
+      | some s3 => some (block "ok" s3 [] closes (stopDelays dl s1 old))
       | none => none
 
 /-- (blocks, index of the last load that was attempted) -/
-def summaryLoop (s : State) (k : Nat) : List CfgSpec → Option (List String × Nat)
+def summaryLoop (dl : Bool) (s : State) (k : Nat) : List CfgSpec → Option (List String × Nat)
   | [] =>
-    match stopBlock s with
+    match stopBlock dl s with
     | some b => some ([b], k)
     | none => none
   | c :: rest =>
-    match loadBlock s k c with
+    match loadBlock dl s k c with
     | none => none
     | some (s', b, stop) =>
       if stop then some ([b], k) else
-      match summaryLoop s' (k + 1) rest with
+      match summaryLoop dl s' (k + 1) rest with
       | some (bs, last) => some (b :: bs, last)
       | none => none
 
@@ -272,7 +294,7 @@ def tokAnswers (sc : Scenario) (last : Nat) : String :=
   if cs.isEmpty then "-" else String.ofList cs
 
 def summary (sc : Scenario) : String :=
-  match summaryLoop init 0 sc.cfgs with
+  match summaryLoop sc.delay init 0 sc.cfgs with
   | some (bs, last) => " ".intercalate bs ++ " " ++ tokAnswers sc last
   | none => "model-stuck"
 
